@@ -47,7 +47,7 @@ Qed.
 (** * Comments *)
 (** in well-formed UTF-8 the byte after an ASCII byte starts a scalar value *)
 Lemma ascii_split_ok : forall n s, (List.length s <= n)%nat -> utf8_valid s = true ->
-  forall pre c rest, s = pre ++ c :: rest -> 0 <= c <= 127 -> starts_ok rest = true.
+  forall pre c rest, s = pre ++ c :: rest -> 0 <= c <= 127 -> utf8_valid rest = true.
 Proof.
   induction n as [|n IH]; intros s Hn Hv pre c rest Hs Hc.
   { destruct s; [destruct pre; discriminate|cbn in Hn; lia]. }
@@ -55,7 +55,7 @@ Proof.
   cbn [utf8_valid] in Hv. cbn [List.length] in Hn.
   destruct ((0 <=? a) && (a <=? 127)) eqn:E1.
   { destruct pre as [|p pre].
-    - cbn [app] in Hs. injection Hs as -> ->. apply utf8_valid_starts_ok; exact Hv.
+    - cbn [app] in Hs. injection Hs as -> ->. exact Hv.
     - cbn [app] in Hs. injection Hs as -> ->. eapply (IH (pre ++ c :: rest)); [lia|exact Hv|reflexivity|exact Hc]. }
   destruct ((194 <=? a) && (a <=? 223)) eqn:E2.
   { destruct r as [|b r']; [discriminate|]. apply andb_prop in Hv. destruct Hv as [Hb Hv]. unfold cont in Hb.
@@ -84,8 +84,10 @@ Proof.
   - injection Hs as _ _ _ -> _. lia.
   - injection Hs as _ _ _ _ ->. cbn [List.length] in Hn. eapply (IH (pre ++ c :: rest)); [lia|exact Hv'|reflexivity|exact Hc].
 Qed.
-Lemma after_ascii_ok pre c rest : utf8_valid (pre ++ c :: rest) = true -> 0 <= c <= 127 -> starts_ok rest = true.
+Lemma after_ascii_valid pre c rest : utf8_valid (pre ++ c :: rest) = true -> 0 <= c <= 127 -> utf8_valid rest = true.
 Proof. intros Hv Hc. eapply ascii_split_ok; [apply le_n|exact Hv|reflexivity|exact Hc]. Qed.
+Lemma after_ascii_ok pre c rest : utf8_valid (pre ++ c :: rest) = true -> 0 <= c <= 127 -> starts_ok rest = true.
+Proof. intros Hv Hc. apply utf8_valid_starts_ok. eapply after_ascii_valid; eassumption. Qed.
 
 (** the state machine of [scan::comment_2822] without slicing and overflow checks *)
 Fixpoint cpure (l : bytes) (state : comment_state) : presult bytes :=
